@@ -1,5 +1,6 @@
 import OpdaProofs.Audit
 import OpdaProofs.BandMore
+import OpdaProofs.BandCor
 import OpdaProofs.Small
 import OpdaProofs.ExtInst
 /-!
@@ -54,6 +55,84 @@ theorem quantile_band_antitone {E α : Type} [Preorder E] [Preorder α]
     (hF : ∀ q y, a ≤ y → (QF q ≤ y ↔ q ≤ F y)) (hG : ∀ q y, a ≤ y → (QG q ≤ y ↔ q ≤ G y))
     (hle : ∀ y, F y ≤ G y) (haF : ∀ q, a ≤ QF q) (q : α) : QG q ≤ QF q :=
   Opda.Small.quantile_antitone a F G QF QG hF hG hle haF q
+
+
+/-! ### no mass outside `[a,b]`, the ends of the bands, widening -/
+
+/-- closed form of the index: `cdf t = levelAt ([a ≤ t] + #{i : y_i ≤ t} + [b ≤ t]) levels` -/
+theorem band_cdf_eq_level_of_sample_count (a b : E) (ys : List E) (levels : List α) (t : E)
+    (hlen : levels.length = ys.length + 1) :
+    cdf (support ⊥ ⊤ a b (bandObs a b ys levels)) t
+      = levelAt ((if a ≤ t then 1 else 0) + ys.countP (fun v => decide (v ≤ t)) + (if b ≤ t then 1 else 0)) levels :=
+  band_cdf_count a b ys levels t hlen
+
+/-- **no band puts mass below `a`**: for *every* level table, each of lo / pt / hi has cdf 0 strictly below `a`
+(bounds as the class validates them: `a ≤ min ys`, `a ≤ b`). -/
+theorem band_no_mass_below_a (a b : E) (ys : List E) (levels : List α) (t : E) (hlen : levels.length = ys.length + 1)
+    (hta : t < a) (hys : ∀ y ∈ ys, a ≤ y) (hab : a ≤ b) :
+    cdf (support ⊥ ⊤ a b (bandObs a b ys levels)) t = 0 := band_cdf_zero_below a b ys levels t hlen hta hys hab
+
+/-- **no band puts mass above `b`**: for every level table the cdf is 1 from `b` on. -/
+theorem band_no_mass_above_b (a b : E) (ys : List E) (levels : List α) (t : E) (hlen : levels.length = ys.length + 1)
+    (hbt : b ≤ t) (hys : ∀ y ∈ ys, y ≤ b) (hab : a ≤ b) :
+    cdf (support ⊥ ⊤ a b (bandObs a b ys levels)) t = 1 := band_cdf_one_from_b a b ys levels t hlen hbt hys hab
+
+/-- between the bounds the band cdf is the level indexed by the number of observations `≤ t` -/
+theorem band_cdf_between_bounds (a b : E) (ys : List E) (levels : List α) (t : E) (hlen : levels.length = ys.length + 1)
+    (hat : a ≤ t) (htb : t < b) :
+    cdf (support ⊥ ⊤ a b (bandObs a b ys levels)) t = levels.getD (ys.countP (fun v => decide (v ≤ t))) 0 :=
+  band_cdf_inside a b ys levels t hlen hat htb
+
+/-- **the lower band is 0 below the smallest observation**: any table with `L_0 = 0` (true of the dkw/ks tables,
+`lower_level_zero`), any `t` below every observation and below `b`. -/
+theorem lower_band_zero_below_min (a b : E) (ys : List E) (levels : List α) (t : E)
+    (hlen : levels.length = ys.length + 1) (hL0 : levels.getD 0 0 = 0) (hys : ∀ y ∈ ys, t < y) (htb : t < b) :
+    cdf (support ⊥ ⊤ a b (bandObs a b ys levels)) t = 0 := band_cdf_zero_below_min a b ys levels t hlen hL0 hys htb
+
+/-- **the upper band is 1 from the largest observation on**: any table with `U_n = 1` (true of the dkw/ks tables,
+`upper_level_last_one`).  "Largest support point" means `max ys`, not `b`: the band reaches 1 at `max ys` already when
+`b > max ys`, because the mass that `diff(…, append=[1.])` puts on `b` is `1 − U_n = 0`. -/
+theorem upper_band_one_from_max (a b : E) (ys : List E) (levels : List α) (t : E)
+    (hlen : levels.length = ys.length + 1) (hUn : levels.getD ys.length 0 = 1) (hat : a ≤ t) (hys : ∀ y ∈ ys, y ≤ t) :
+    cdf (support ⊥ ⊤ a b (bandObs a b ys levels)) t = 1 := band_cdf_one_from_max a b ys levels t hlen hUn hat hys
+
+/-- the dkw/ks tables `clip(arange(n+1)/n ∓ ε, 0, 1)` satisfy the two hypotheses for every `ε ≥ 0` -/
+theorem lower_level_zero (n : ℕ) {ε : α} (h : 0 ≤ ε) : (loLevels n ε).getD 0 0 = 0 := loLevels_zero n h
+
+theorem upper_level_last_one (n : ℕ) (hn : 0 < n) {ε : α} (h : 0 ≤ ε) : (hiLevels n ε).getD n 0 = 1 :=
+  hiLevels_last n hn h
+
+/-- **raising `ε` (the confidence) never narrows the dkw/ks band**: `ε ≤ ε'` ⇒ `lo' ≤ lo` and `hi ≤ hi'` at every `t`. -/
+theorem widening_of_eps (a b : E) (ys : List E) (t : E) {ε ε' : α} (h : ε ≤ ε') :
+    cdf (support ⊥ ⊤ a b (bandObs a b ys (loLevels ys.length ε'))) t
+        ≤ cdf (support ⊥ ⊤ a b (bandObs a b ys (loLevels ys.length ε))) t
+      ∧ cdf (support ⊥ ⊤ a b (bandObs a b ys (hiLevels ys.length ε))) t
+        ≤ cdf (support ⊥ ⊤ a b (bandObs a b ys (hiLevels ys.length ε'))) t := band_widening_of_eps a b ys t h
+
+/-- **pt is the band with the uniform table `i/n`**: the empirical distribution of the sample has the cdf of the band
+distribution built from `arange(n+1)/n` — which makes the bracket an instance of `bands_ordered_of_levels_ordered`. -/
+theorem pt_is_uniform_band (a b : E) (ys : List E) (t : E) (hne : ys ≠ []) (hys : ∀ y ∈ ys, a ≤ y ∧ y ≤ b) :
+    cdf (support ⊥ ⊤ a b (ys.map fun y => (y, (1 : α)))) t
+      = cdf (support ⊥ ⊤ a b (bandObs a b ys (ptLevels ys.length))) t := pt_cdf_eq_uniform_band a b ys t hne hys
+
+/-- **bracket for dkw / ks**: `lo.cdf ≤ pt.cdf ≤ hi.cdf` at every `t` and every `ε ≥ 0`, `pt` being the actual empirical
+distribution of the sample. -/
+theorem dkw_ks_bracket (a b : E) (ys : List E) (t : E) (hne : ys ≠ []) (hys : ∀ y ∈ ys, a ≤ y ∧ y ≤ b)
+    {ε : α} (h : 0 ≤ ε) :
+    cdf (support ⊥ ⊤ a b (bandObs a b ys (loLevels ys.length ε))) t
+        ≤ cdf (support ⊥ ⊤ a b (ys.map fun y => (y, (1 : α)))) t
+      ∧ cdf (support ⊥ ⊤ a b (ys.map fun y => (y, (1 : α)))) t
+        ≤ cdf (support ⊥ ⊤ a b (bandObs a b ys (hiLevels ys.length ε))) t := dkw_bracket a b ys t hne hys h
+
+/-- non-vacuity: a tied sample strictly inside infinite/finite bounds, a query below the sample and one above it. -/
+example : (∀ y ∈ ([Ext.fin 2, Ext.fin 2, Ext.fin 5] : List Ext), Ext.fin 0 ≤ y ∧ y ≤ Ext.posInf)
+    ∧ (∀ y ∈ ([Ext.fin 2, Ext.fin 2, Ext.fin 5] : List Ext), Ext.fin 1 < y) ∧ Ext.fin 1 < Ext.posInf
+    ∧ (∀ y ∈ ([Ext.fin 2, Ext.fin 2, Ext.fin 5] : List Ext), y ≤ Ext.fin 5) ∧ Ext.fin 0 ≤ Ext.fin 5
+    ∧ (loLevels 3 ((1:ℚ)/4)).length = 3 + 1 ∧ (0:ℚ) ≤ 1/4 ∧ ((1:ℚ)/4) ≤ 1/2 := by
+  refine ⟨?_, ?_, by decide, ?_, by decide, loLevels_length _ _, by norm_num, by norm_num⟩ <;>
+  · intro y hy
+    simp only [List.mem_cons, List.not_mem_nil, or_false] at hy
+    rcases hy with rfl | rfl | rfl <;> norm_num [Ext.lt_iff, Ext.le_iff, Ext.lt]
 
 /-- the band theorem for the very terms the driver evaluates -/
 theorem band_cdf_driver (a b : Ext) (ys : List Ext) (levels : List Rat) (t : Ext)
